@@ -14,7 +14,8 @@ def judge(env, cases, chunk=60, workers=8):
         wd = env.tmpdir("sem")
         with open(os.path.join(wd, "cases.ndjson"), "w") as f:
             for c in ch:
-                f.write(json.dumps({"id": c["id"], "prog": c["prog"], "out": c["out"], "halt": c["halt"]}) + "\n")
+                f.write(json.dumps({"id": c["id"], "prog": c["prog"], "out": c["out"], "halt": c["halt"],
+                                    "out2": c.get("out2", c["out"]), "halt2": c.get("halt2", c["halt"])}) + "\n")
         r = tlc.run(wd, "SemCheck", "SemCheck.cfg", ["lang", "lib"], workers=1, timeout=1800, case_prefix="@@OUT ", heap="4g")
         out = {o["id"]: o for o in r["cases"]}
         err = None
